@@ -2,9 +2,10 @@
 # usage: try_mutant_isolated.sh <patch.diff> [quick|thorough] <prop>...
 # Same as try_mutant.sh but does not touch /repo: a copy of /verif (own target dir) under /tmp/vtrial is pointed at a
 # scratch worktree of /repo that carries the patch. Lets trials run while other checks use /repo.
+# SLOT=<n> selects an independent copy so that two trials can run side by side.
 P=$(readlink -f "$1"); shift
 TIER=quick
-T=/tmp/vtrial; R=/tmp/vtrial-repo
+T=/tmp/vtrial${SLOT:-}; R=/tmp/vtrial${SLOT:-}-repo
 if [ ! -d $R ]; then git -C /repo worktree add --detach $R HEAD -q || exit 2; fi
 git -C $R checkout -q --detach $(git -C /repo rev-parse HEAD) && git -C $R checkout -q -- . && git -C $R clean -fdq
 git -C $R apply "$P" || { echo "patch does not apply"; exit 2; }
